@@ -22,7 +22,7 @@ for rid in sorted(engine.RULES):
         import traceback; traceback.print_exc()
         print(rid, 'CRASH', e)
         continue
-    print('%-6s inst=%-4d floor=%-3d viol=%d %s' % (rid, len(res.instances), ru.floor, len(res.violations), '' if len(res.instances) >= ru.floor else 'BELOW FLOOR'))
+    print('%-6s inst=%-4d floor=%-3d viol=%d %s' % (rid, len(res.instances), ru.floor_for(cfg), len(res.violations), '' if len(res.instances) >= ru.floor_for(cfg) else 'BELOW FLOOR'))
     if '-v' in sys.argv:
         for i in res.instances: print('     .', i)
     for v in res.violations:
